@@ -32,7 +32,7 @@ HARNESSES = [
     out_of_claim='agreement with the eager reader, the reverse-reference table and dependency closure (judy arrays), loadInstance, header section, complex instances, multi-record files', **COMMON),
   H('next_instance', 'irc', 'harness/C10/h_next.c', repo_srcs=SRCS_NOSTR, irc_src_flags=RENAME, tiers=('thorough',),   # 28 min (measured): thorough tier only
     defs={'GLS_CONTRACT': 1, 'NB': 1, 'VSTR_CAP': 6, 'VSTREAM_CAP': 14, 'VOSTREAM_CAP': 4, 'VCONT_CAP': 4},
-    unwind=14, timeout=3600,
+    unwind=14, timeout=7200,
     bounds='one record #d[d] = A[B] ( body ) ; with every combination of optional blanks, one- or two-digit ids incl. a leading zero, one- or two-letter keyword; body = every byte string of <= 1 byte over {# 1 2 quote / * ( ) , blank a} (longer bodies: seek_end)',
     samples=[{'body': '#1,#2', 'd1': 5, 'd2': 10, 'k2': 0, 'sp': 0}, {'body': "'#1'", 'd1': 1, 'd2': 2, 'k2': 1, 'sp': 7}, {'body': '/*#1*/', 'd1': 3, 'd2': 10, 'k2': 0, 'sp': 1}, {'body': '(#2)', 'd1': 4, 'd2': 10, 'k2': 1, 'sp': 2}, {'body': "'a", 'd1': 4, 'd2': 10, 'k2': 1, 'sp': 0}, {'body': '# a', 'd1': 4, 'd2': 10, 'k2': 1, 'sp': 0}],
     stubs=['GetLiteralStr: replaced by GetLiteralStr_contract, proven equivalent in stream effect by gls_equiv', 'reader / lazyFileReader / lazyInstMgr: zeroed typed storage with only the fields the scanner touches (no judy arrays, no file)', 'std::ifstream: vstd in-memory stream', 'unreached callees of the linked translation units may lack bodies (allow_undef=*)'],
